@@ -116,9 +116,11 @@ theorem c06_primary_never_marked (l : List IP) (marks : List Nat) (a : IP) (ha :
 
 /-! ## never delete an interface that is in use or has requests pending -/
 
-/-- the dispose worker deletes an interface only in `deleting` state with no address held and no live request queued -/
+/-- the dispose worker deletes an interface only in `deleting` state with no address held and no live request waiting
+    on it — neither queued for the factory nor already ordered (`dang`, counted since fix 4f8432b) -/
 theorem c06_delete_only_unused (c : Cfg) (dn : List Nat) (s : Slot) (e : String) (hp : s.fdPlanOK c dn (.delete e) = true) :
-    s.eni = some e ∧ s.status = .deleting ∧ (∀ a ∈ s.ips, a.owner = none) ∧ live dn s.alloc4 = [] ∧ live dn s.alloc6 = [] := by
+    s.eni = some e ∧ s.status = .deleting ∧ (∀ a ∈ s.ips, a.owner = none) ∧ live dn s.alloc4 = [] ∧ live dn s.alloc6 = [] ∧
+      live dn s.dang4 = [] ∧ live dn s.dang6 = [] := by
   unfold Slot.fdPlanOK at hp
   cases he : s.eni with
   | none => simp [he] at hp
@@ -132,11 +134,36 @@ theorem c06_delete_only_unused (c : Cfg) (dn : List Nat) (s : Slot) (e : String)
         unfold Slot.canDispose at hcd
         simp only [he, Option.isNone_some, Bool.false_or, Bool.and_eq_true, Bool.not_eq_true', List.any_eq_false,
           List.isEmpty_iff] at hcd
-        refine ⟨by rw [hp], by simpa using hst, ?_, hcd.1.2, hcd.2⟩
+        refine ⟨by rw [hp], by simpa using hst, ?_, hcd.1.1.1.2, hcd.1.1.2, hcd.1.2, hcd.2⟩
         intro a ha
-        simpa [IP.inUse] using hcd.1.1 a ha
+        simpa [IP.inUse] using hcd.1.1.1.1 a ha
       · simp at hp
     · split at hp <;> simp at hp
+
+/-- an interface with a live request waiting on it (queued, or already ordered and waiting for its address) is never
+    marked for deletion by `Dispose` -/
+theorem c06_no_whole_dispose_while_request_waits (dn : List Nat) (s : Slot) (n : Nat) (e : String) (he : s.eni = some e)
+    (hw : live dn s.alloc4 ≠ [] ∨ live dn s.alloc6 ≠ [] ∨ live dn s.dang4 ≠ [] ∨ live dn s.dang6 ≠ []) :
+    s.disposeOK dn n .wholeENI = false := by
+  cases h : s.disposeOK dn n .wholeENI with
+  | false => rfl
+  | true =>
+    exfalso
+    unfold Slot.disposeOK at h
+    split at h
+    · simp at h
+    · split at h
+      · rename_i hc
+        simp only [Bool.and_eq_true] at hc
+        have hcd := hc.2
+        unfold Slot.canDispose at hcd
+        simp only [he, Option.isNone_some, Bool.false_or, Bool.and_eq_true, List.isEmpty_iff] at hcd
+        rcases hw with h1 | h1 | h1 | h1
+        · exact h1 hcd.1.1.1.2
+        · exact h1 hcd.1.1.2
+        · exact h1 hcd.1.2
+        · exact h1 hcd.2
+      · simp at h
 
 /-- a whole-interface dispose is only chosen when the interface is unused -/
 theorem c06_whole_eni_only_unused (dn : List Nat) (s : Slot) (n : Nat) (h : s.disposeOK dn n .wholeENI = true) :
